@@ -341,6 +341,10 @@ def evaluate(mod, cases):
     all_ops = []
     for c in cases:
         ia = mod.impl(c)
+        if any(isinstance(a, str) and a in ("Error:ImportError", "Error:ModuleNotFoundError") for a in ia):
+            # the harness could not even import an anchored function (renamed/moved by a refactor): that is a
+            # problem of the machinery, not evidence about the property
+            raise InfraError(f"{mod.PROP}: an anchored module/function could not be imported by the harness: {clean(c)!r}"[:600])
         ops = mod.ops(c)
         if len(ia) != len(ops):
             raise InfraError(f"{mod.PROP}: impl gave {len(ia)} answers for {len(ops)} ops: {c}")
